@@ -116,14 +116,19 @@ P("C06", "proof", "Lean 4 refinement theorems (Unix queries = StdSpec) + model/c
   "list of the argument is a leading / trailing run (unix_starts_with_vs_std, unix_ends_with_vs_std), strip_prefix "
   "succeeds exactly then (strip_prefix_some_iff), == and cmp are equality and the derived lexicographic order of "
   "std's component lists (unix_eq_vs_std, unix_cmp_vs_std). StdSpec is compared with real std::path on every run.",
-  "Partial: (1) byte-exactness of parent (that the returned prefix is the *shortest* one, as std's) and of the "
-  "strip_prefix remainder is not proved; the remainder is in fact not byte-equal to std's — known finding K1, proved as "
-  "unix_strip_prefix_K1_witness and set aside in the oracle by a narrow class predicate; (2) ancestors is iterated "
-  "parent (fuel-bounded in the model). Both are compared byte for byte with real std by the oracle on every run. "
-  "Model=code and StdSpec=std by differential testing.",
+  "Byte-exactness of parent and ancestors is proved too: the returned slice is the SHORTEST leading slice of the path "
+  "with those components — no proper leading slice of it has the same std components (C06b.unix_parent_minimal, "
+  "unix_ancestors_minimal; hence unique: unix_parent_unique) — which is what std's Components::as_path returns (it trims "
+  "every trailing separator and `.` segment down to the root). "
+  "Partial: the strip_prefix remainder is not byte-equal to std's — known finding K1, proved as "
+  "unix_strip_prefix_K1_witness and set aside in the oracle by a narrow class predicate; ancestors is iterated "
+  "parent (fuel-bounded in the model, fuel proved adequate in C09b). All sub-paths are compared byte for byte with real std "
+  "by the oracle on every run. Model=code and StdSpec=std by differential testing.",
   theorems=["TP.C09.unix_parent_vs_std", "TP.C06.unix_file_name_vs_std", "TP.C12.stem_ext_split", "TP.C06.unix_starts_with_vs_std",
             "TP.C06.unix_ends_with_vs_std", "TP.C06.strip_prefix_some_iff", "TP.C06.unix_eq_vs_std", "TP.C06.unix_cmp_vs_std",
-            "TP.C06.unix_strip_prefix_K1_witness"],
+            "TP.C06.unix_strip_prefix_K1_witness", "TP.C06b.unix_parent_minimal", "TP.C06b.unix_parent_unique",
+            "TP.C06b.unix_ancestors_minimal"],
+  modules=["TypedPathVerif.Props.C06b", "TypedPathVerif.Props.C09", "TypedPathVerif.Props.C12"],
   rule=NONTRIV + "non-trivial = >= 2 components (unary) / true prefix relation (pairs)", design_ref="§5 C06")
 
 P("C07", "proof", "Lean 4 invariant-by-induction over operation histories (model vs StdBuf, incl. set_extension) + model/code and StdBuf/std correspondence",
